@@ -277,6 +277,10 @@ pub fn build(spec: &Spec) -> (Vec<u8>, Layout) {
             if e.zip64_central & 4 != 0 {
                 p64(&mut body, d.off);
             }
+            // bit 3: the disk start number moves into the block too (fourth field, 4 bytes; the 16-bit field says 0xFFFF)
+            if e.zip64_central & 8 != 0 {
+                p32(&mut body, 0);
+            }
             p16(&mut z, 1);
             p16(&mut z, body.len() as u16);
             z.extend_from_slice(&body);
@@ -307,7 +311,7 @@ pub fn build(spec: &Spec) -> (Vec<u8>, Layout) {
         p16(&mut out, e.name.len() as u16);
         p16(&mut out, cextra.len() as u16);
         p16(&mut out, e.comment.len() as u16);
-        p16(&mut out, 0);
+        p16(&mut out, if e.zip64_central & 8 != 0 { 0xFFFF } else { 0 });
         p16(&mut out, 0);
         p32(&mut out, e.ext_attr);
         p32(&mut out, if e.zip64_central & 4 != 0 { 0xFFFF_FFFF } else { d.off as u32 });
